@@ -7,7 +7,7 @@ from ..terms import A, C, F, V, L, NIL, call, conj, TRUE, FAIL, show_clause, sho
 
 ID = 'C01'
 LEVEL = 'model_checking'
-RULE = ('L1: every single-clause predicate p(t1..tk) :- B, k<=2 over 13 head-argument shapes (k=3 over 6, '
+RULE = ('L1: every single-clause predicate p(t1..tk) :- B, k<=2 over 14 head-argument shapes incl. [X,Y|T] (k=3 over 7, '
         'and k=0), B in {true, one [thorough: or two] goals from q(X) q(Y) r(X,Y) X=Y X=a X\\=a Y=f(X) fail}, each '
         'queried with EVERY tuple of query-argument shapes (unbound, aliased, partial, ground). L2: every program '
         'of <=2 [thorough: 3] clauses over p/1,q/1 with head argument in {X,a,b,f(X)} and body of <=1 goal '
@@ -31,13 +31,13 @@ def bounds(tier):
 # ---------------------------------------------------------------- L1
 def head_shapes():
     return [X, Y, ('ANON',), A('a'), C(1), F('f', X), F('f', A('a')), F('g', X, Y), F('g', X, X), NIL,
-            L([X], T), L([X, Y]), L([A('a')], X)]
+            L([X], T), L([X, Y]), L([A('a')], X), L([X, Y], T)]
 
 
-HEAD3 = [0, 2, 3, 5, 8, 10]   # X _ a f(X) g(X,X) [X|T]
+HEAD3 = [0, 2, 3, 5, 8, 10, 13]   # X _ a f(X) g(X,X) [X|T] [X,Y|T]
 QA, QB = V('A'), V('B')
 QUERY_SHAPES = [QA, QB, A('a'), A('b'), C(1), F('f', QA), F('f', A('a')), F('g', QA, QB), F('g', QA, QA),
-                L([A('a'), A('b')]), L([QA], QB)]
+                L([A('a'), A('b')]), L([QA], QB), L([A('a'), A('b'), A('c')])]
 QUERY3 = [QA, QB, A('a'), F('f', QA), F('g', QA, QB), L([QA], QB)]
 GOALS = [call(F('q', X)), call(F('q', Y)), call(F('r', X, Y)), call(F('=', X, Y)), call(F('=', X, A('a'))),
          call(F('\\=', X, A('a'))), call(F('=', Y, F('f', X))), FAIL]
